@@ -90,6 +90,10 @@ def parse_twitter_url(url):
                 return TwitterList(id=path[2])
             return None
 
+        # NOTE: e.g. a lone "@"
+        if not user_screen_name:
+            return None
+
         if len(path) == 3:
             return TwitterTweet(user_screen_name=user_screen_name, id=path[2])
 
